@@ -8,6 +8,7 @@ import Gts.Gen.CliRotate
 import Gts.Bridge.CliLoops
 namespace Gts.Bridge
 open Gts
+set_option linter.unusedSimpArgs false  -- the guard forms: only the one the source uses is needed
 
 /-- **`gts rotate`, one record**: the scan-loop body of rotate.go, as written, hands exactly one
 record to `WriteSeq` — the model's `Cli.rotate` (the record turned so that the head of the FIRST
@@ -18,8 +19,11 @@ theorem rotateStep_eq (locate : Seq → List Reg) (seq : Seq) :
   cases h : locate seq with
   | nil => simp
   | cons r rest =>
-    have : ((r :: rest).length : Int) > 0 := by simp only [List.length_cons]; omega
-    simp only [this, if_true, goAt_zero_cons, List.nil_append]
+    -- the guard on len(rr), whatever form it is written in, holds
+    obtain ⟨g1, g2, g3, g4⟩ := guard_pos_forms (r :: rest).length
+    have : (r :: rest).length ≠ 0 := by simp
+    simp only [gt_iff_lt, ge_iff_le, g1, g2, g3, g4, goAt_zero_cons, List.nil_append]
+    rw [if_pos this]
 
 example : Gen.rotateStep (fun _ => [.seg 2 4, .seg 1 3]) ⟨[], [1, 2, 3, 4, 5]⟩
     = some [Cli.rotate (fun _ => [.seg 2 4, .seg 1 3]) ⟨[], [1, 2, 3, 4, 5]⟩] := rotateStep_eq _ _
